@@ -21,7 +21,14 @@ Next ==
        \A pHas \in BOOLEAN : \A fHas \in BOOLEAN :
          PrintT(<<"FBK", ToJson([kind |-> kind, choice |-> c, preferred_has |-> pHas, fallback_has |-> fHas,
                                  expect |-> Resolve(pHas, fHas)])>>)
-Spec == Init /\ [][Next]_done
+(* the answer to a query does not depend on the queries made before on the same resolver object *)
+HistoryRows ==
+  \A kind \in {"dh", "cipher", "hash"} : \A c1 \in KindChoices(kind) : \A c2 \in KindChoices(kind) \ {c1} :
+    \A p1 \in BOOLEAN : \A p2 \in BOOLEAN :
+      PrintT(<<"FBK2", ToJson([kind |-> kind,
+                              first |-> [choice |-> c1, preferred_has |-> p1, fallback_has |-> TRUE, expect |-> Resolve(p1, TRUE)],
+                              second |-> [choice |-> c2, preferred_has |-> p2, fallback_has |-> ~p2, expect |-> Resolve(p2, ~p2)]])>>)
+Spec == Init /\ [][Next /\ HistoryRows]_done
 (* "iff at least one member provides it" *)
 IffEither == \A p, f \in BOOLEAN : (Resolve(p, f) # "none") = (p \/ f)
 =============================================================================
